@@ -78,6 +78,7 @@ fn main() {
             sc.fault_times.clear();
             for m in &mut sc.mods {
                 m.dynamic = None;
+                m.imports.retain(|im| im.kind != 7);
             }
             if run % 2 == 0 && sc.mods.iter().all(|m| m.awaits == 0) {
                 let k = rng.range(1, 2);
@@ -172,6 +173,23 @@ fn main() {
             }
         }
         println!("{bad} mismatches");
+        return;
+    }
+    if args[1] == "corners" {
+        // authoring aid: every corner snippet on a fresh context, panics caught
+        for (name, src) in boa_sim::props::c02::corners() {
+            let r = std::panic::catch_unwind(|| {
+                let (mut ctx, host) = boa_sim::js::new_default_context();
+                let r = ctx.eval(boa_engine::Source::from_bytes(src.as_str()));
+                let c = boa_sim::js::completion(&r, &mut ctx);
+                let j = ctx.run_jobs();
+                (c, j.is_ok(), host.trace.take())
+            });
+            match r {
+                Ok((c, j, t)) => println!("{name}: {} jobs_ok={j} {:?}", c.chars().take(120).collect::<String>(), t.iter().map(|l| l.chars().take(160).collect::<String>()).collect::<Vec<_>>()),
+                Err(_) => println!("{name}: PANIC"),
+            }
+        }
         return;
     }
     if args[1] == "jsparts" {
